@@ -28,10 +28,10 @@ CFG = {
                      "the interpreter Model/VxfwInterp.lean (what a handler call, a type assertion w.(EventCapturer), a type switch on a command value, "
                      "struct equality of hit results, a labelled continue, app.handleCommand and a return mean; in the dispatchers a hit result is its widget, "
                      "in update the whole struct) and Model/VxfwInterpTree.lean (composite literal hitResult{…}, uint16 subtraction with wrap-around, checked path[i] swaps, "
-                     "recursion on the surface tree) are the semantics of the Go subset the twelve *_body_eq_model theorems speak about; inside an interpreted body "
-                     "of Model/VxfwInterp.lean the calls app.handleCommand / m.update / f.focusWidget / f.findPath / hitTest / containsPoint are the model functions, "
-                     "each identified with its own executed body by its body_eq_model theorem one level down (findPath -> childHasFocus and hitTest -> containsPoint "
-                     "are interpreted callee-in-caller); the event switch and frame step of App.Run are transcribed (pinned by run_switch_covered / run_arm_count / "
+                     "recursion on the surface tree) are the semantics of the Go subset the twelve *_body_eq_model theorems speak about; inside the five FIRST-layer bodies "
+                     "(focusHandler.handleEvent, mouseHandler.handleEvent, focusWidget, mouseExit, mouseEnter) the calls app.handleCommand / m.update / f.findPath are the "
+                     "model functions, each identified with its own executed body by its body_eq_model theorem one level down; update, updatePath, handleCommand, findPath "
+                     "and hitTest also run with their callees interpreted (*_bodies_eq_model, Model/VxfwInterpAll.lean); the event switch and frame step of App.Run are transcribed (pinned by run_switch_covered / run_arm_count / "
                      "run_frame_order / run_prologue_order), not interpreted; the child sort of render is a model function (render_sort_call + the render ops)",
                      "the translator extract/cmd/C15/skel.go resolves `continue L` to a loop distance (label names, like local names, are not part of the tie)"],
     "level_text": "vxfw routing, focus and hover, after the repairs of F115a/F115b/F43 in /repo. Proved for every widget behaviour (oracle), state, "
